@@ -132,7 +132,7 @@ Section Doc.
     | KDirection => SpellsOneOf v doc_directions
     | KShape =>
         match c with
-        | CObj => SpellsOneOf v doc_shapes
+        | CObj => v = [] \/ SpellsOneOf v doc_shapes   (* the empty value selects the default shape *)
         | CArrow => SpellsOneOf v doc_arrowheads
         | _ => SpellsOneOf v doc_shapes \/ SpellsOneOf v doc_arrowheads
         end
@@ -185,7 +185,7 @@ Section Doc.
     | KDirection => spells_one_of_b v doc_directions
     | KShape =>
         match c with
-        | CObj => spells_one_of_b v doc_shapes
+        | CObj => negb (nonempty v) || spells_one_of_b v doc_shapes
         | CArrow => spells_one_of_b v doc_arrowheads
         | _ => spells_one_of_b v doc_shapes || spells_one_of_b v doc_arrowheads
         end
